@@ -674,6 +674,43 @@ func runC20(c *Ctx) {
 				c.Fail("C20: ParseAtomicLevel does not accept the capital name", "%s: %v", l, err)
 				return false
 			}
+			// the drawn text through the parsing constructors and the plain
+			// Level's own text, JSON and flag interfaces: accepted iff valid
+			// (or empty = info), and a refused text leaves the target alone
+			kind, want := c20classify(op.text)
+			if op.text == "" {
+				kind, want = 1, zapcore.InfoLevel
+			}
+			if kind != 2 {
+				pl, e1 := zapcore.ParseLevel(op.text)
+				pa, e2 := zap.ParseAtomicLevel(op.text)
+				var lv zapcore.Level = 42
+				e3 := lv.Set(op.text)
+				var lj zapcore.Level = 42
+				js, _ := json.Marshal(op.text)
+				e4 := json.Unmarshal(js, &lj)
+				if kind == 1 {
+					if e1 != nil || e2 != nil || e3 != nil || e4 != nil || pl != want || pa.Level() != want || lv != want || lj != want || lv.Get() != interface{}(want) {
+						c.Fail("C20: a valid level text was refused or read as another level", "%q: ParseLevel (%s, %v), ParseAtomicLevel %v, Level.Set (%s, %v), JSON (%s, %v)", op.text, pl, e1, e2, lv, e3, lj, e4)
+						return false
+					}
+				} else {
+					if e1 == nil || e2 == nil || e3 == nil || e4 == nil {
+						c.Fail("C20: a text that names no level was accepted", "%q: ParseLevel %v, ParseAtomicLevel %v, Level.Set %v, JSON %v", op.text, e1, e2, e3, e4)
+						return false
+					}
+					if lv != 42 || lj != 42 {
+						c.Fail("C20: rejected text modified its target", "Level became %d / %d after %q was refused", lv, lj, op.text)
+						return false
+					}
+				}
+			}
+			// a nil *Level is refused, not dereferenced
+			var np *zapcore.Level
+			if err := np.UnmarshalText([]byte(l.String())); err == nil {
+				c.Fail("C20: UnmarshalText on a nil *Level reported success", "%s", l)
+				return false
+			}
 		}
 		return true
 	}
